@@ -10,6 +10,10 @@ WORKROOT = os.path.join(VERIF, ".work")
 TLAJAR = "/opt/veriftools/tla/tla2tools.jar"
 CMJAR = "/opt/veriftools/tla/CommunityModules-deps.jar"
 NCPU = os.cpu_count() or 4
+# self-test against a changed copy of the repository (VERIF_REPO): keep its outputs away from the real ones
+SELFTEST = REPO != "/repo"
+EVIDENCE_DIR = os.path.join(WORKROOT, "selftest-evidence") if SELFTEST else os.path.join(VERIF, "evidence")
+REPLAY_DIR = os.path.join(WORKROOT, "selftest-replays") if SELFTEST else os.path.join(VERIF, "replays")
 
 
 class Infra(Exception):
@@ -352,13 +356,13 @@ def match_known(prop, segment_lines):
 # ---- evidence --------------------------------------------------------------------
 
 def write_evidence(prop, tier, seed, level, coverage, wall, violations, assumptions):
-    os.makedirs(os.path.join(VERIF, "evidence"), exist_ok=True)
+    os.makedirs(EVIDENCE_DIR, exist_ok=True)
     ev = {
         "property_id": prop, "tier": tier, "seed": int(seed), "level": level,
         "coverage": coverage, "assumptions": assumptions, "wall_s": round(wall, 2),
         "violations": violations,
     }
-    tmp = os.path.join(VERIF, "evidence", prop + ".json.tmp")
+    tmp = os.path.join(EVIDENCE_DIR, prop + ".json.tmp")
     with open(tmp, "w") as f:
         json.dump(ev, f, indent=1)
-    os.replace(tmp, os.path.join(VERIF, "evidence", prop + ".json"))
+    os.replace(tmp, os.path.join(EVIDENCE_DIR, prop + ".json"))
